@@ -1,0 +1,30 @@
+//go:build verif
+
+package priority_queue
+
+// Contracts for the gcv verifier (/verif); compiled only with build tag `verif`.
+// The queue is a binary heap on top of container/heap: an external dependency for the verifier (A-DEP in
+// DESIGN.md). Its methods are given effect-only contracts and are trusted: callers only learn that a call touches
+// nothing but the queue itself.
+
+//@ func (*Queue[V, P]).Len
+//@   trusted
+//@   ensures result >= 0
+
+//@ func (*Queue[V, P]).Push
+//@   trusted
+//@   modifies pq.pq
+
+//@ func (*Queue[V, P]).Pop
+//@   trusted
+//@   modifies pq.pq
+
+//@ func (*Queue[V, P]).Peek
+//@   trusted
+
+//@ func (*Queue[V, P]).PeekPriority
+//@   trusted
+
+//@ func (*Queue[V, P]).Update
+//@   trusted
+//@   modifies pq.pq
